@@ -65,8 +65,27 @@ func gsFamilies() (fams [][]*GenomeSpec, names [][]string) {
 			{4, network.HiddenNeuron, xorSeed().Nodes[3].Act, 2}, {5, network.InputNeuron, 17, 1}},
 		Genes: []GeneSpec{{In: 1, Out: 3, W: 0.5, Innov: 1, Mut: 0.5, En: true, Trait: 1}, {In: 1, Out: 4, W: -1, Innov: 2, Mut: -1, En: true, Trait: 2},
 			{In: 4, Out: 3, W: 2, Innov: 3, Mut: 2, En: true, Trait: 1}}}
-	return [][]*GenomeSpec{{xorSeed()}, {disconnectedSeed()}, {evolvedSeed()}, {hb1}, {hb2}, {wide}, {late}},
-		[][]string{{"xor"}, {"xor-disconnected"}, {"evolved"}, {"xor+1hidden"}, {"xor+2hidden+disabled"}, {"wide-2outputs"}, {"late-sensor"}}
+	// exactly one sensor, hidden ids between the sensor's and the output's (the layout of
+	// NewPopulationRandom(in=1, ...)): inserting a hidden node into a child goes to index 1
+	single := &GenomeSpec{ID: 1, Traits: []TraitSpec{{1, params8(0.2)}},
+		Nodes: []NodeSpec{{1, network.InputNeuron, 17, 1}, {2, network.HiddenNeuron, xorSeed().Nodes[3].Act, 1}, {3, network.HiddenNeuron, xorSeed().Nodes[3].Act, 0},
+			{4, network.OutputNeuron, xorSeed().Nodes[3].Act, 1}},
+		Genes: []GeneSpec{{In: 1, Out: 2, W: 0.5, Innov: 1, Mut: 0.5, En: true, Trait: 1}, {In: 2, Out: 4, W: -1, Innov: 2, Mut: -1, En: true, Trait: 1},
+			{In: 1, Out: 3, W: 2, Innov: 3, Mut: 2, En: true, Trait: 0}, {In: 3, Out: 4, W: 0.25, Innov: 4, Mut: 0.25, En: false, Trait: 1}}}
+	// 16 genes (the "not tiny" branch of add-node: uniform random picks, 20 tries). Index draws over 16
+	// genes are answered from {0, 1, 8, 15}: gene 0 leaves the bias, genes 1 and 15 are disabled, gene 8 is enabled
+	big := &GenomeSpec{ID: 1, Traits: []TraitSpec{{1, params8(0.2)}, {2, params8(0.6)}},
+		Nodes: []NodeSpec{{1, network.BiasNeuron, 17, 0}, {2, network.InputNeuron, 17, 1}, {3, network.InputNeuron, 17, 0}, {4, network.OutputNeuron, xorSeed().Nodes[3].Act, 1}}}
+	for h := 5; h <= 8; h++ {
+		big.Nodes = append(big.Nodes, NodeSpec{h, network.HiddenNeuron, xorSeed().Nodes[3].Act, 1 + h%2})
+	}
+	pairs := [][2]int{{1, 4}, {2, 4}, {3, 4}, {2, 5}, {5, 4}, {3, 6}, {6, 4}, {2, 7}, {3, 5}, {7, 4}, {3, 8}, {8, 4}, {5, 6}, {6, 7}, {7, 8}, {6, 8}}
+	for i, pr := range pairs {
+		en := !(i == 1 || i == 15 || i == 4 || i == 9)
+		big.Genes = append(big.Genes, GeneSpec{In: pr[0], Out: pr[1], W: 0.25 * float64(i+1), Innov: int64(i + 1), Mut: 0.25 * float64(i+1), En: en, Trait: 1 + i%2})
+	}
+	return [][]*GenomeSpec{{xorSeed()}, {disconnectedSeed()}, {evolvedSeed()}, {hb1}, {hb2}, {wide}, {late}, {single}, {big}},
+		[][]string{{"xor"}, {"xor-disconnected"}, {"evolved"}, {"xor+1hidden"}, {"xor+2hidden+disabled"}, {"wide-2outputs"}, {"late-sensor"}, {"single-sensor"}, {"sixteen-genes"}}
 }
 
 func gsBounds(c *Ctx) gsConfig {
@@ -82,8 +101,15 @@ func runGenomeSpaces(c *Ctx, prop string, oracle func(t *gsTransition)) {
 	c.Sharded(len(fams), func(i int) {
 		cfg := gsBounds(c)
 		cfg.Seeds, cfg.SeedNames, cfg.Oracle, cfg.Prop = fams[i], names[i], oracle, prop
-		if c.Quick() && (i == 2 || i == 4) {
-			cfg.MaxDepth = 2 // the two largest start genomes: one level less in the quick tier
+		if c.Quick() && (i == 2 || i == 4 || i == 7) {
+			cfg.MaxDepth = 2 // the largest start genomes: one level less in the quick tier
+		}
+		if i == 8 {
+			cfg.MaxDepth = 1 // the 16-gene genome is there for the operators' large-genome branches only
+			if !c.Quick() {
+				cfg.MaxDepth = 2
+			}
+			cfg.OpDev = 3
 		}
 		gs := newGenomeSpace(c, cfg)
 		gs.Search()
@@ -113,7 +139,7 @@ func runC01(c *Ctx) {
 		pl.scenarios = buildScenarios(quickCfgRows, []string{"M", "A", "R1", "R2"}, seeds, modes, fits, false)
 	} else {
 		pl.scenarios = buildScenarios(len(cfgRows), allPolicies, seeds, modes, fits, false)
-		pl.deepScenarios = buildScenarios(quickCfgRows, []string{"R1"}, seeds, modes, fits, false)
+		pl.deepScenarios = deepScenarios(seeds, modes, fits)
 		pl.deepDev, pl.shards = 2, 16
 	}
 	runEpochPlan(c, pl)
